@@ -379,7 +379,9 @@ HARNESSES = [
     Harness('marker_table_stage', h_marker_stage, setup=_rm_setup,
             cases=[{'vary': ['c0', 'c2', 'c3']},
                    {'vary': ['c3'], 'default_size': 1},
+                   {'vary': ['c0', 'c3'], 'sizes': [2, 3], 'nproc': 1},
                    {'vary': [], 'fixed': True, 'thresholds': True},
+                   {'vary': [], 'fixed': True, 'hair': True, 'nproc': 1},
                    {'vary': [], 'fixed': True, 'wide_genes': 260,
                     'nproc': 2},
                    {'vary': [], 'fixed': True, 'leaves': ['c2', 'c0']}],
@@ -397,7 +399,9 @@ HARNESSES = [
             bounds='real files: 5 leaf clusters (10 pairs => two worker '
                    'chunks), 6 genes, fixed per-cell data; solver-chosen '
                    'cluster sizes (1 or 3 cells; quick: three clusters '
-                   'vary), worker count 1-3, exact / approximate '
+                   'vary; one case with 2 or 3 cells; one case where the fold '
+                   'threshold is set 1e-5 above the fold of a strict '
+                   'marker of a solver-chosen pair, n_valid = 1), worker count 1-3, exact / approximate '
                    'penetrance, n_valid 1 / 30, gene list or none',
             outside='genes whose statistics lie within a small margin of '
                     'a threshold are not judged (the oracle uses scipy\'s '
@@ -406,8 +410,12 @@ HARNESSES = [
     Harness('p_value_mask_route_stage', h_marker_stage, setup=_rm_setup,
             cases=[{'vary': ['c0', 'c3'], 'route': 'mask'},
                    {'vary': ['c3'], 'default_size': 1, 'route': 'mask'},
+                   {'vary': ['c0', 'c3'], 'sizes': [2, 3], 'route': 'mask',
+                    'nproc': 1},
                    {'vary': [], 'fixed': True, 'route': 'mask',
                     'thresholds': True},
+                   {'vary': [], 'fixed': True, 'route': 'mask',
+                    'hair': True, 'nproc': 1},
                    {'vary': [], 'fixed': True, 'route': 'mask',
                     'wide_genes': 260, 'nproc': 2},
                    {'vary': [], 'fixed': True, 'route': 'mask',
